@@ -1,1 +1,82 @@
-From QH Require Import Bytes.
+(* Properties_C01.v — C01: a request head is accepted iff well-formed, and parsed fields are exact. *)
+From Coq Require Import String List Ascii ZArith Permutation.
+From QH Require Import Bytes BytesProofs HeaderMap Parser ParserProofs HeaderProofs.
+Import ListNotations.
+
+(* wf_ok r: METHOD SP target SP HTTP/1.0|HTTP/1.1 with one of the eight methods, a target without
+   SP and without CR LF, and header lines "name:value" (name without ':', no CR LF inside).
+   render_head r joins request line and header lines with CR LF. *)
+
+(* accepted  <->  it is the rendering of a well-formed request; nothing else is ever accepted *)
+Theorem C01_accept_iff_wellformed : forall h,
+  (exists m t hm, parse_request_headers h = Ok (m, t, hm)) <-> (exists r, wf_ok r /\ h = render_head r).
+Proof. exact accept_iff_wellformed. Qed.
+Print Assumptions C01_accept_iff_wellformed.
+
+(* when accepted: method, raw target and the header multimap are exactly what was sent
+   (names and values whitespace-trimmed) *)
+Theorem C01_parse_render_exact : forall r,
+  wf_ok r ->
+  parse_request_headers (render_head r) =
+  Ok (w_method r, w_target r,
+      fold_left (fun m nv => hm_insert (trimmed (fst nv)) (trimmed (snd nv)) m) (w_headers r) []).
+Proof. exact parse_render_exact. Qed.
+Print Assumptions C01_parse_render_exact.
+
+Theorem C01_parse_accept_sound : forall h m t hm,
+  parse_request_headers h = Ok (m, t, hm) ->
+  exists r, wf_ok r /\ h = render_head r /\ w_method r = m /\ w_target r = t /\
+            hm = fold_left (fun acc nv => hm_insert (trimmed (fst nv)) (trimmed (snd nv)) acc) (w_headers r) [].
+Proof. exact parse_accept_sound. Qed.
+Print Assumptions C01_parse_accept_sound.
+
+(* duplicates kept, none lost or moved: the map is a permutation of the trimmed pairs sent *)
+Theorem C01_headers_multiset : forall (l : list (bytes * bytes)) acc,
+  Permutation
+    (fold_left (fun m nv => hm_insert (fst (trim_pair nv)) (snd (trim_pair nv)) m) l acc)
+    (rev (map trim_pair l) ++ acc).
+Proof. exact (hm_fold_perm trim_pair). Qed.
+Print Assumptions C01_headers_multiset.
+
+(* names are compared case-insensitively: a lookup finds the newest value of any case variant,
+   and entries of other names do not interfere *)
+Theorem C01_lookup_case_insensitive : forall k k' v m,
+  (ieq k k' = true -> hm_value k' (hm_insert k v m) = v) /\
+  (ieq k k' = false -> hm_value k' (hm_insert k v m) = hm_value k' m).
+Proof. intros; split; [apply hm_value_insert_same|apply hm_value_insert_other]. Qed.
+Print Assumptions C01_lookup_case_insensitive.
+
+(* the eight methods are reported under eight distinct constants / tokens *)
+Theorem C01_methods_distinct : forall m1 m2,
+  (method_code m1 = method_code m2 -> m1 = m2) /\ (method_token m1 = method_token m2 -> m1 = m2).
+Proof. exact methods_distinct. Qed.
+Print Assumptions C01_methods_distinct.
+
+(* the declared content length: decimal digits below 2^63 are reported as their value *)
+Theorem C01_content_length_exact : forall d,
+  d <> [] -> all_digits d = true -> (digits_val d <= 2 ^ 63 - 1)%Z -> to_longlong d = digits_val d.
+Proof. exact content_length_exact. Qed.
+Print Assumptions C01_content_length_exact.
+
+(* the percent-decoded path is exactly the bytes the client spelled, literally or escaped *)
+Theorem C01_path_exact : forall l,
+  Forall spelled_ok l -> pct_decode (flat_map enc_byte l) = map fst l.
+Proof. exact pct_decode_exact. Qed.
+Print Assumptions C01_path_exact.
+
+(* no byte string drives the parser into an assertion *)
+Theorem C01_parser_never_crashes : forall h, parse_request_headers h <> Crash.
+Proof. exact parse_request_never_crashes. Qed.
+Print Assumptions C01_parser_never_crashes.
+
+(* non-vacuity *)
+Example C01_nonvacuous :
+  wf_ok {| w_method := POST; w_target := B "/a%20b?x=1"; w_version := B "HTTP/1.1";
+           w_headers := [(B "Content-Length", B " 4 "); (B "X-A", B "1"); (B "x-a", B "2")] |}.
+Proof.
+  unfold wf_ok, no_crlf. cbn [w_target w_version w_headers].
+  split; [intros H; cbn in H; repeat destruct H as [H|H]; try discriminate; exact H|].
+  split; [vm_compute; reflexivity|]. split; [right; reflexivity|].
+  repeat constructor; try (vm_compute; reflexivity);
+    cbn; intros H; repeat destruct H as [H|H]; try discriminate; exact H.
+Qed.
